@@ -1,9 +1,12 @@
 package main
 
 import (
+	"bytes"
+	"encoding/json"
 	"fmt"
 	"go/types"
 	"reflect"
+	"strconv"
 	"strings"
 
 	"golang.org/x/tools/go/ssa"
@@ -302,48 +305,159 @@ func (e *Engine) callMarshalJSON(m *ssa.Function, recv Value) JVal {
 	if errv := res[1].(IfaceVal); errv.typ != nil {
 		panic(pathEnd{"marshalerr", "MarshalJSON returned an error"})
 	}
-	return e.bytesToJ(res[0])
+	t, ok := e.bytesToJChecked(res[0])
+	if !ok {
+		// encoding/json validates what a MarshalJSON method returns
+		panic(pathEnd{"marshalerr", "MarshalJSON returned bytes that are not valid JSON"})
+	}
+	return t
 }
 
 func (e *Engine) bytesToJ(v Value) JVal {
+	t, ok := e.bytesToJChecked(v)
+	if !ok {
+		unsupported("bytes that are not a well-formed JSON document")
+	}
+	return t
+}
+
+// bytesToJChecked: ok=false when the bytes are not well-formed JSON (which
+// encoding/json reports as an error when they come from a MarshalJSON method).
+func (e *Engine) bytesToJChecked(v Value) (JVal, bool) {
 	switch b := v.(type) {
 	case JBytes:
-		return b.tree
+		return b.tree, true
 	case bufBytes:
 		return e.parseSegs(b.segs)
+	case SliceVal:
+		var raw []byte
+		for _, x := range sliceElems(b) {
+			t, isT := x.(*Term)
+			if !isT || !t.konst {
+				unsupported("bytesToJ on a byte slice with symbolic content")
+			}
+			raw = append(raw, byte(t.iv))
+		}
+		return parseConcreteJSON(raw)
 	}
 	unsupported("bytesToJ %T", v)
-	return nil
+	return nil, false
+}
+
+// parseConcreteJSON reads literal JSON bytes into the data model (objects keep
+// their member order).
+func parseConcreteJSON(raw []byte) (JVal, bool) {
+	if !json.Valid(raw) {
+		return nil, false
+	}
+	dec := json.NewDecoder(bytes.NewReader(raw))
+	dec.UseNumber()
+	var rd func() (JVal, bool)
+	rd = func() (JVal, bool) {
+		tok, err := dec.Token()
+		if err != nil {
+			return nil, false
+		}
+		switch t := tok.(type) {
+		case nil:
+			return JNull{}, true
+		case bool:
+			return JBool{mkBool(t)}, true
+		case string:
+			return JStr{mkStr(t)}, true
+		case json.Number:
+			if i, err := strconv.ParseInt(string(t), 10, 64); err == nil {
+				return JNum{mkInt(i)}, true
+			}
+			f, err := t.Float64()
+			if err != nil {
+				return nil, false
+			}
+			if f == float64(int64(f)) && f > -1e15 && f < 1e15 {
+				return JNum{mkInt(int64(f))}, true
+			}
+			return JNum{FloatVal{f}}, true
+		case json.Delim:
+			switch t {
+			case '[':
+				arr := JArr{}
+				for dec.More() {
+					x, ok := rd()
+					if !ok {
+						return nil, false
+					}
+					arr.elems = append(arr.elems, x)
+				}
+				dec.Token()
+				return arr, true
+			case '{':
+				jo := JObj{ordered: true}
+				for dec.More() {
+					kt, err := dec.Token()
+					ks, isS := kt.(string)
+					if err != nil || !isS {
+						return nil, false
+					}
+					x, ok := rd()
+					if !ok {
+						return nil, false
+					}
+					jo.keys = append(jo.keys, mkStr(ks))
+					jo.vals = append(jo.vals, x)
+				}
+				dec.Token()
+				return jo, true
+			}
+		}
+		return nil, false
+	}
+	return rd()
 }
 
 // parseSegs parses `{` k `:` v (`,` k `:` v)* `}` segment lists (as written by
-// ordered.Map.MarshalJSON) into an ordered object.
-func (e *Engine) parseSegs(segs []bufSeg) JVal {
+// ordered.Map.MarshalJSON) into an ordered object; ok=false when the segments
+// do not spell a JSON object (stray or missing comma, truncated member).
+func (e *Engine) parseSegs(segs []bufSeg) (JVal, bool) {
+	// literal segments may be split or merged differently ("{" + "}" or "{}")
+	var norm []bufSeg
+	for _, sg := range segs {
+		if sg.tree != nil {
+			norm = append(norm, sg)
+			continue
+		}
+		for _, r := range sg.lit {
+			if r == ' ' || r == '\n' || r == '\t' {
+				continue
+			}
+			norm = append(norm, bufSeg{lit: string(r)})
+		}
+	}
+	segs = norm
 	if len(segs) < 2 || segs[0].lit != "{" || segs[len(segs)-1].lit != "}" {
-		unsupported("buffer segments do not form a JSON object: %v", segLits(segs))
+		return nil, false
 	}
 	jo := JObj{ordered: true}
 	body := segs[1 : len(segs)-1]
 	for i := 0; i < len(body); {
 		if i > 0 {
 			if body[i].lit != "," {
-				unsupported("malformed JSON object segments (missing comma): %v", segLits(segs))
+				return nil, false
 			}
 			i++
 		}
-		if i+2 >= len(body)+0 && i+2 > len(body)-1 {
-			unsupported("malformed JSON object segments (truncated): %v", segLits(segs))
+		if i+2 > len(body)-1 {
+			return nil, false
 		}
 		k, colon, val := body[i], body[i+1], body[i+2]
 		ks, ok := k.tree.(JStr)
 		if !ok || colon.lit != ":" || val.tree == nil {
-			unsupported("malformed JSON object segments: %v", segLits(segs))
+			return nil, false
 		}
 		jo.keys = append(jo.keys, ks.s)
 		jo.vals = append(jo.vals, val.tree)
 		i += 3
 	}
-	return jo
+	return jo, true
 }
 
 func segLits(segs []bufSeg) string {
@@ -479,6 +593,9 @@ func (e *Engine) jInspect(name string, args []Value) (Value, bool) {
 	tree := func() JVal { return e.bytesToJ(args[0]) }
 	switch name {
 	case "vpJKind":
+		if _, ok := e.bytesToJChecked(args[0]); !ok {
+			return mkInt(-1), true // not a well-formed JSON document
+		}
 		switch tree().(type) {
 		case JNull:
 			return mkInt(0), true
